@@ -61,7 +61,7 @@ func main() {
 	fmts := pipe.Formats()
 	pipe.Default()
 	pipe.Skip["dyn3"] = true
-	total := o.Count(800, 80000)
+	total := o.Count(1500, 80000)
 
 	for c := 0; c < total; c++ {
 		f := fmts[r.Pick(len(fmts))]
